@@ -108,6 +108,11 @@ int main (int argc, char **argv)
 			int rv = mpq_QSset_param (P, atoi (qsx_tok[1]), atoi (qsx_tok[2]));
 			printf ("PARAM %d\n", rv);
 		}
+		else if (!strcmp (op, "PRECISION"))
+		{
+			QSexact_set_precision ((unsigned) atoi (qsx_tok[1]));
+			printf ("PRECISION %s\n", qsx_tok[1]);
+		}
 		else if (!strcmp (op, "LOADBASIS"))
 		{
 			int n = mpq_QSget_colcount (P), m = mpq_QSget_rowcount (P), rv;
